@@ -64,7 +64,7 @@ func anyArg(rt *rapid.T, label string) lang.Value {
 }
 
 var builtinProfiles = []string{"between", "min", "max", "sort", "reverse", "split", "join", "len", "lower", "upper", "trim", "string",
-	"int", "float", "type", "match", "replace", "keys", "hour", "minute", "seconds", "day", "month", "year", "weekday", "wrong"}
+	"int", "float", "type", "match", "replace", "keys", "hour", "minute", "seconds", "day", "month", "year", "weekday", "wrong", "sorttwice"}
 
 func TestC17(t *testing.T) {
 	defer silenceAs("builtins")()
@@ -171,6 +171,30 @@ func TestC17(t *testing.T) {
 			}
 			// [sorted, input afterwards]
 			ret = lang.ArrayLit{Elems: []lang.Expr{lang.Call{Fn: fn, Args: args}, ea}}
+		case "sorttwice":
+			// several results of sort/reverse/min/max alive at the same time:
+			// each is its own array
+			mk := func(label string, n int) lang.Value {
+				out := lang.Array()
+				seen := map[string]bool{}
+				for len(out.A) < n {
+					var v lang.Value
+					if rapid.Bool().Draw(rt, label+"str") {
+						v = lang.Str(gen.Word(rt, label+"w") + fmt.Sprint(len(out.A)))
+					} else {
+						v = lang.Int(rapid.Int64Range(-50, 500).Draw(rt, label+"i"))
+					}
+					if k := strings.ToLower(v.Inspect()); !seen[k] {
+						seen[k] = true
+						out.A = append(out.A, v)
+					}
+				}
+				return out
+			}
+			na := rapid.IntRange(1, 6).Draw(rt, "na")
+			ea, eb, ec := arg(mk("A", na)), arg(mk("B", rapid.IntRange(0, na).Draw(rt, "nb"))), arg(mk("C", rapid.IntRange(0, na).Draw(rt, "nc")))
+			ret = lang.ArrayLit{Elems: []lang.Expr{lang.Call{Fn: "sort", Args: []lang.Expr{ea}}, lang.Call{Fn: "reverse", Args: []lang.Expr{eb}},
+				lang.Call{Fn: "sort", Args: []lang.Expr{ec}}, lang.Call{Fn: "reverse", Args: []lang.Expr{ea}}, ea, eb, ec}}
 		case "split", "join":
 			s := gen.Text(rt, "s")
 			d := rapid.SampledFrom([]string{",", "", " ", "a", "ab", "狐", "\n", ", "}).Draw(rt, "d")
